@@ -5,6 +5,7 @@ import Driver.C02
 import Driver.C06
 import Driver.C12
 import Driver.C13
+import Driver.C19
 import Driver.C08
 import Driver.C18
 import Driver.C09
@@ -44,7 +45,9 @@ def dispatch (prop : String) (c obs : String) : String × String × Bool :=
   | "C02" => C02.run c obs
   | "C12" => C12.run c obs
   | "C13" => C13.run c obs
+  | "C19" => C19.run c obs
   | "C20e2e" => C12.run c obs
+  | "C16res" => C12.run c obs
   | "C06" => C06.run c obs
   | "C06sev" => let m := C06.runSev c; (m, if m == obs then "ok" else "severity-differs-from-the-classifier-model", m == obs)
   | "C14" => C14.runSched c obs
